@@ -52,6 +52,29 @@ def check(ctx):
                 elif isinstance(v, ast.Call) and isinstance(v.func, ast.Attribute) and v.func.attr == "lower" and isinstance(v.func.value, ast.Call) \
                         and ast.unparse(v.func.value.func) == "str":
                     lits = ("true", "false")
+    if lits is None and "bool" in wtag:
+        # the text by specialisation: the writer for "a bool that is true" / "a bool that is false"
+        from engine.specialize import Spec
+        from .xmlfmt import writer_decider, text_writes
+        vparam_ = te.positional_params[2]
+        base_ = writer_decider(an, te, vparam_, "bool")
+        got = []
+        for truth in (True, False):
+            def dec(e, node, truth=truth):
+                if isinstance(e, ast.Name) and e.id == vparam_:
+                    return truth
+                if isinstance(e, ast.Compare) and len(e.ops) == 1 and isinstance(e.left, ast.Name) and e.left.id == vparam_ \
+                        and isinstance(e.comparators[0], ast.Constant) and isinstance(e.comparators[0].value, bool) and isinstance(e.ops[0], (ast.Is, ast.Eq)):
+                    return truth == e.comparators[0].value
+                return base_(e, node)
+            spx = Spec(an, te, dec)
+            vals = set()
+            for n, v in text_writes(spx, te):
+                for k, p_ in spx.sources(v, n):
+                    vals.add(p_.value if k == "expr" and isinstance(p_, ast.Constant) else None)
+            got.append(vals.pop() if len(vals) == 1 else None)
+        if all(isinstance(x, str) for x in got):
+            lits = (got[0], got[1])
     lowers = any(isinstance(x, ast.Call) and isinstance(x.func, ast.Attribute) and x.func.attr in ("lower", "casefold") for x in ast.walk(fe.node))
     norm = (lambda x: x.lower()) if lowers else (lambda x: x)
     okb = lits is not None and all(isinstance(x, str) for x in lits) and norm(lits[0]) in T and norm(lits[1]) in F
